@@ -330,6 +330,6 @@ func runC09(c *fw.Ctx) {
 		fw.Bug("ecref self-test: %v", err)
 	}
 	_ = time.Now
-	n := c.Pick(392, 5096)
+	n := c.Pick(392, 40768)
 	c.Cases(n, func(i int) string { return fmt.Sprintf("doc|i=%d", i) }, func(i int, k *fw.K) { c09Case(k, i) })
 }
